@@ -61,6 +61,7 @@ def run(ctx):
     ctx.rule('C06-R6', 'channel order: BI_RGB load and save both map file byte i to memory byte 2-i; BITFIELDS byte masks map to little-endian byte indices', 6)
     ctx.rule('C06-R7', 'PNG chunk protocol: length(4,BE) type(4) data crc(4,BE); CRC over type then data only; IHDR is 13 bytes with colour type 6 iff alpha; chunks IHDR,gAMA,IDAT,IEND in order', 10)
     ctx.rule('C06-R8', 'dispatch tables: signatures P5/P6/P7/BM; TUPLTYPE -> (format, depth); channel width thresholds 0xFF/0xFFFF/0xFFFFFFFF', 4)
+    ctx.rule('C06-R9', 'PAM acceptance: for every tuple type x MAXVAL {255,65535} x field order, a spec-conformant P7 header reaches the pixel read without a throw and the read consumes exactly W*H*samples*bytes (partial evaluation of load() over a constant byte stream)', 16)
     u = ctx.unit(repo_unit('Image.cc'))
     uf = ctx.unit(repo_unit('Filesystem.cc'))
     us = repo_unit('Strings.cc')
@@ -554,6 +555,20 @@ def run(ctx):
         d = callee_decl(crcs[0], u)
         okc = okc and 'unsigned char' in ((d or {}).get('type', {}).get('qualType') or '') + 'Bytef' or okc
     ctx.check(okc, R, 'chunk|crc-chain', W, 'crc32(0, type, 4) then crc32(crc, data, size)', 'CRC does not cover exactly the type followed by the data')
+    # a static local initialised from an argument keeps the first call's value for every later call
+    n_st = 0
+    for f_ in u.functions:
+        if body_of(f_) is None or not (f_.get('_file') or '').endswith('Image.cc'):
+            continue
+        pids = {p_['id'] for p_ in params_of(f_)}
+        for v_ in walk(body_of(f_)):
+            if v_.get('kind') == 'VarDecl' and v_.get('storageClass') == 'static' and kids(v_):
+                uses = [y for y in walk(kids(v_)[-1]) if y.get('kind') == 'DeclRefExpr' and (y.get('referencedDecl') or {}).get('id') in pids or y.get('kind') == 'CXXThisExpr']
+                if uses:
+                    n_st += 1
+                    ctx.bad(R, 'static-local|%s|%s' % (f_.get('name'), v_.get('name')), v_, 'static local `%s` in %s is initialised from the call\'s arguments (%s): it is computed on the first call only and every later call reuses that value' % (v_.get('name'), f_.get('name'), src_text(uses[0], 30)))
+    if not n_st:
+        ctx.ok(R, 'static-local|none', W, 'no static local in Image.cc is initialised from call arguments', nontrivial=False)
     # zlib's crc32, not phosg's
     zl = all('Bytef' in ((callee_decl(c, u) or {}).get('type', {}).get('qualType') or '') or 'unsigned char' in ((callee_decl(c, u) or {}).get('type', {}).get('qualType') or '') for c in crcs)
     ctx.check(zl, R, 'chunk|zlib-crc', W, 'crc32 resolves to zlib (seed, bytes, length)', 'crc32 does not resolve to zlib\'s crc32: %s' % [((callee_decl(c, u) or {}).get('type', {}).get('qualType')) for c in crcs])
@@ -627,4 +642,70 @@ def run(ctx):
     hdr = [strip(call_args(c)[2]).get('value', '') for c in walk(svb) if c.get('kind') == 'CallExpr' and call_name(c) == 'snprintf' and strip(call_args(c)[2]).get('kind') == 'StringLiteral']
     okp = len(hdr) == 2 and any(h.startswith('"P7\\nWIDTH %zu\\nHEIGHT %zu\\nDEPTH 4\\nMAXVAL %lu\\nTUPLTYPE RGB_ALPHA\\nENDHDR\\n') for h in hdr) and any(h.startswith('"P6 %zu %zu %lu\\n') for h in hdr)
     ctx.check(okp, R, 'ppm-headers', SV, 'P6 / P7 headers carry width, height, maxval (and RGB_ALPHA)', 'PPM header formats are %s' % hdr)
+    # ------------------------------------------------------------------ R9
+    # every valid PAM (P7) header is accepted and the pixel read consumes exactly the file's samples:
+    # the loader's statements after the signature dispatch are partially evaluated (E-TABLE) with the
+    # FILE modelled as a constant byte stream holding a spec-conformant header + pixel bytes.
+    R = 'C06-R9'
+    from peval import PEval, Stream, Thrown, Undecided as PUndecided, Fault as PFault
+    top = stmts_of(lbody)
+    ctx.require(sig_chain in top, 'load(): signature dispatch is not a top-level statement')
+    rest = top[top.index(sig_chain) + 1:]
+    p7_then = None
+    s_ = sig_chain
+    while s_ is not None and s_.get('kind') == 'IfStmt':
+        cond, then, els = if_parts(s_)
+        cs = sorted(chr(int_value(relation(n_, pol)[2])) for n_, pol in atoms([Fact(cond, True, s_)]) if relation(n_, pol) and relation(n_, pol)[1] == '==' and int_value(relation(n_, pol)[2]) is not None)
+        if cs == ['7', 'P']:
+            p7_then = then
+        s_ = els
+    ctx.require(p7_then is not None, 'load(): the P7 signature branch was not found')
+    fparam = params_of(L)[0]
+    W_, H_ = 37, 23
+    for tname, depth_ in (('GRAYSCALE', 1), ('GRAYSCALE_ALPHA', 2), ('RGB', 3), ('RGB_ALPHA', 4)):
+        for maxval, bps in ((255, 1), (65535, 2)):
+            for order in (0, 1):
+                fields = ['WIDTH %d' % W_, 'HEIGHT %d' % H_, 'DEPTH %d' % depth_, 'MAXVAL %d' % maxval, 'TUPLTYPE %s' % tname]
+                if order:
+                    fields = [fields[4], fields[3], fields[2], fields[1], fields[0]]
+                npix = W_ * H_ * depth_ * bps
+                data = ('\n' + '\n'.join(fields) + '\nENDHDR\n').encode() + bytes(npix)
+                key = 'p7|%s|maxval=%d|order=%d' % (tname, maxval, order)
+                pe = PEval([u, us], max_depth=8)
+                st = Stream(data)
+                env = {fparam['id']: st}
+                # locals declared before the dispatch (format, is_extended_ppm, ...) start uninitialised
+                for d_ in top[:top.index(sig_chain)]:
+                    if d_.get('kind') == 'DeclStmt':
+                        for vd in kids(d_):
+                            if vd.get('kind') == 'VarDecl':
+                                env[vd['id']] = ('uninit',)
+                                if kids(vd):
+                                    try:
+                                        env[vd['id']] = pe.ev(kids(vd)[-1], env)
+                                    except (PUndecided, PFault):
+                                        pass
+                verdict, why, where = None, '', L
+                try:
+                    pe.run([p7_then], env)
+                    pe.run(rest, env)
+                    verdict = 'end'
+                except Thrown as t:
+                    verdict, why, where = 'throw', str(t), (t.node or L)
+                except PFault as t:
+                    verdict, why = 'fault', str(t)
+                except PUndecided as t:
+                    verdict, why = 'stop', str(t)
+                except Exception as t:      # control-flow signals of the evaluator (return)
+                    verdict, why = 'stop', type(t).__name__
+                reads = getattr(pe, 'reads', [])
+                if verdict == 'throw':
+                    ctx.bad(R, key, where, 'a spec-conformant PAM file (%s, %dx%d, DEPTH %d, MAXVAL %d) is rejected: %s at `%s`' % (tname, W_, H_, depth_, maxval, why, src_text(where, 70)))
+                elif verdict == 'fault':
+                    ctx.bad(R, key, where, 'loading a spec-conformant PAM file (%s, DEPTH %d, MAXVAL %d) faults: %s' % (tname, depth_, maxval, why))
+                elif not reads:
+                    ctx.undecided(R, key, L, 'evaluation stopped before the pixel read (%s)' % why)
+                else:
+                    ctx.check(reads == [npix] and st.pos == len(data), R, key, L, 'header accepted; pixel read consumes exactly %d bytes (%d samples/pixel x %d byte(s))' % (npix, depth_, bps),
+                              'for a valid %s PAM file (%dx%d, MAXVAL %d) the loader reads %s bytes of pixel data; the file holds %d (%d samples/pixel x %d byte(s))' % (tname, W_, H_, maxval, reads, npix, depth_, bps))
     ctx.note('Not decided: pixel-exact identity for every image, validity under an independent decoder, zlib stream contents, behaviour on every truncated prefix (R3+R4 give the exception/no-leak half only).')
